@@ -38,7 +38,8 @@ def _vjob(name, td, te, fam, timeout, unwind=10, mem=10):
 
 
 def jobs(tier):
-    J = [vjob("validate_v4_d1", 1, 2, 4, 900), vjob("validate_v6_d1", 1, 2, 6, 900)]
+    J = [vjob("validate_v4_d1", 1, 2, 4, 900), vjob("validate_v6_d1", 1, 2, 6, 1500)]
+    J[1].solver = ["--sat-solver", "cadical"]  # MiniSat needs > 225 s here (measured), CaDiCaL ~ 120 s
     # three-node chains (root -> child -> grandchild): the shortest shape in which the walk from one covering node to the
     # next has to pass a node that does not cover the query
     for nm, mask in (("LL", 11), ("LR", 19), ("RL", 37), ("RR", 69)):
